@@ -3,6 +3,7 @@ CONSTANTS
   MaxReq = 100000
   Pads = {0}
   NativeArmEmpty = FALSE
+  AllowLateRequest = FALSE
   EmitCases = FALSE
 SPECIFICATION TraceSpec
 INVARIANTS TypeOK NoSilentDrop ModeMatches CommitDoneAligned HighWater
